@@ -424,9 +424,7 @@ func c14ServerHeader(c *core.Ctx, hc handlerClosure) string {
 		val := setCall.Call.Args[2]
 		ok := false
 		why := "header value is not fmt.Sprintf(\"%d:%s\", proto.Code, proto.Message)"
-		if vc, _, isCall := core.CallResult(val); isCall && core.InfoOf(&vc.Call).Is("fmt.Sprintf") {
-			format, _ := core.ConstString(vc.Call.Args[0])
-			args, unpacked := core.VariadicArgs(vc.Call.Args[1])
+		if format, args, unpacked := core.FormatOf(val); unpacked {
 			if strings.HasPrefix(format, "%d:") && unpacked && len(args) >= 1 {
 				a0 := core.Strip(args[0])
 				if base, f, isF := core.FieldOf(a0); isF && f == "Code" && core.QualNamedOf(base.Type()) == "google.golang.org/genproto/googleapis/rpc/status.Status" {
